@@ -620,6 +620,16 @@ class Interp:
         load = ast.fix_missing_locations(ast.copy_location(_as_load(st.target), st.target))
         cur = self.ev(load)
         rhs = self.ev(st.value)
+        if isinstance(st.op, ast.Add) and isinstance(cur, Obj) and cur.kind == "seq" and self.heap[cur.oid].get("pytype") in ("list", "deque") \
+                and "at" in self.heap[cur.oid] and isinstance(rhs, Obj) and rhs.kind == "seq" and "at" in self.heap[rhs.oid]:
+            # list += list extends the *same* object in place (every alias sees it), then rebinds the target to it
+            p, q = self.heap[cur.oid], self.heap[rhs.oid]
+            n0, at0, at1 = p["len"], p["at"], q["at"]
+            p["at"] = lambda i, n0=n0, at0=at0, at1=at1: vite(i < n0, at0(i), at1(i - n0))
+            p["len"] = z3.simplify(n0 + q["len"])
+            self.wrote(cur.oid, "items")
+            self.assign(st.target, cur)
+            return
         self.assign(st.target, self.binop(st.op, cur, rhs, st))
 
     def assign(self, t, v):
@@ -909,6 +919,10 @@ class Interp:
                 return Fl(a.v / b.v, nan)
             if isinstance(op, ast.Pow):
                 return Fl(models.power(self, a.v, b.v), nan)
+            if isinstance(op, ast.FloorDiv):
+                # float // float and timedelta // timedelta: the floor of the quotient
+                self.oblige("%s::safety::div0" % self.frame().qual, z3.Or(b.v != 0, nan), kind="safety")
+                return Fl(z3.ToReal(z3.ToInt(a.v / b.v)), nan)
             raise Unsupported("float op %s" % type(op).__name__)
         return models.binop_value(self, op, a, b)
 
